@@ -157,6 +157,148 @@ theorem noTailAt (cfg : Cfg) (n : Nat) : NoTailAt n cfg := by
 theorem Res.isTail_false_iff (r : Res) : r.isTail = false ↔ ∀ a, r ≠ .tail a := by
   cases r <;> simp
 
+/-! ### where a tail call comes from -/
+
+/-- `e` is, syntactically, a call by name of `self` in tail position: the call itself, or the
+forwarded argument of one of the natives that hand their tail slot on (`if` then/else, the second
+argument of `and`, `or`, `if_error`). -/
+inductive TailPos (self : String) : Expr → Prop
+  | call (args : List Expr) : TailPos self (.call self args)
+  | ifThen (c a b : Expr) : TailPos self a → TailPos self (.call "if" [c, a, b])
+  | ifElse (c a b : Expr) : TailPos self b → TailPos self (.call "if" [c, a, b])
+  | and (a b : Expr) : TailPos self b → TailPos self (.call "and" [a, b])
+  | or (a b : Expr) : TailPos self b → TailPos self (.call "or" [a, b])
+  | ifError (a b : Expr) : TailPos self b → TailPos self (.call "if_error" [a, b])
+
+/-- where a tail call can come from: the slot was offered, tco is on, the frame has a recursion
+cell that is not shadowed, and the expression is a call by name of that cell in tail position -/
+def TailOrigin (cfg : Cfg) (fr : Frame) (tail : Bool) (e : Expr) : Prop :=
+  tail = true ∧ cfg.tco = true ∧
+    ∃ name c, fr.self = some (name, c) ∧ lookup name fr.env = none ∧ TailPos name e
+
+theorem tail_contra {x : Res × St} {a s} (h : x = (Res.tail a, s)) (hx : x.1.isTail = false) : False := by
+  subst h; simp at hx
+
+theorem prim_ne_tail {f vs a} {s s' : St} (h : (prim f vs, s) = (Res.tail a, s')) : False := by
+  have := prim_isTail f vs
+  simp only [Prod.mk.injEq] at h
+  rw [h.1] at this; simp at this
+
+theorem TailOrigin.lift {cfg fr tail e e'} (h : TailOrigin cfg fr tail e)
+    (f : ∀ name, TailPos name e → TailPos name e') : TailOrigin cfg fr tail e' := by
+  obtain ⟨h1, h2, name, c, h3, h4, h5⟩ := h
+  exact ⟨h1, h2, name, c, h3, h4, f _ h5⟩
+
+structure TailOriginAt (n : Nat) (cfg : Cfg) : Prop where
+  eval : ∀ fr e tail st a st', eval n cfg fr e tail st = (.tail a, st') → TailOrigin cfg fr tail e
+  callNamed : ∀ fr f args tail st a st', callNamed n cfg fr f args tail st = (.tail a, st') →
+    TailOrigin cfg fr tail (.call f args)
+  builtin : ∀ fr f args tail st a st', builtin n cfg fr f args tail st = (.tail a, st') →
+    TailOrigin cfg fr tail (.call f args)
+
+theorem tailOriginAt (cfg : Cfg) (n : Nat) : TailOriginAt n cfg := by
+  induction n with
+  | zero => constructor <;> intros <;> simp_all [eval, callNamed, builtin]
+  | succ n ih =>
+    have nt := noTailAt cfg n
+    constructor
+    case eval =>
+      intro fr e tail st a st' h
+      simp only [eval] at h
+      repeat' split at h
+      all_goals first
+        | (simp at h; done)
+        | exact (tail_contra h (nt.mkClos _ _ _)).elim
+        | exact (tail_contra h (nt.callVal _ _ _ _ _)).elim
+        | exact (tail_contra h (nt.eval _ _ false _ (by simp))).elim
+        | exact ih.callNamed _ _ _ _ _ _ _ h
+        | (cases h; exact absurd (nt.evalList' (by assumption)) (by simp))
+        | skip
+      rename_i name c hs hf ht _ _ _ _
+      simp only [Bool.and_eq_true, decide_eq_true_eq, Option.isNone_iff_eq_none] at hf ht
+      obtain ⟨rfl, hl⟩ := hf
+      exact ⟨ht.1, ht.2, _, _, hs, hl, .call _⟩
+    case callNamed =>
+      intro fr f args tail st a st' h
+      simp only [callNamed] at h
+      repeat' split at h
+      all_goals first
+        | exact (tail_contra h (nt.callVal _ _ _ _ _)).elim
+        | exact ih.builtin _ _ _ _ _ _ _ h
+    case builtin =>
+      intro fr f args tail st a st' h
+      simp only [builtin] at h
+      repeat' split at h
+      all_goals first
+        | (simp at h; done)
+        | exact (tail_contra h (nt.eval _ _ false _ (by simp))).elim
+        | (cases h; exact absurd (nt.evalList' (by assumption)) (by simp))
+        | exact (prim_ne_tail h).elim
+        | exact (ih.eval _ _ _ _ _ _ h).lift (fun _ => .ifThen _ _ _)
+        | exact (ih.eval _ _ _ _ _ _ h).lift (fun _ => .ifElse _ _ _)
+        | exact (ih.eval _ _ _ _ _ _ h).lift (fun _ => .and _ _)
+        | exact (ih.eval _ _ _ _ _ _ h).lift (fun _ => .or _ _)
+        | exact (ih.eval _ _ _ _ _ _ h).lift (fun _ => .ifError _ _)
+
+theorem TailPos.inv {name f : String} {args : List Expr} (h : TailPos name (.call f args)) :
+    f = name ∨
+    (∃ c a b, f = "if" ∧ args = [c, a, b] ∧ (TailPos name a ∨ TailPos name b)) ∨
+    (∃ a b, (f = "and" ∨ f = "or" ∨ f = "if_error") ∧ args = [a, b] ∧ TailPos name b) := by
+  cases h with
+  | call => exact .inl rfl
+  | ifThen c a b h => exact .inr (.inl ⟨c, a, b, rfl, rfl, .inl h⟩)
+  | ifElse c a b h => exact .inr (.inl ⟨c, a, b, rfl, rfl, .inr h⟩)
+  | and a b h => exact .inr (.inr ⟨a, b, .inl rfl, rfl, h⟩)
+  | or a b h => exact .inr (.inr ⟨a, b, .inr (.inl rfl), rfl, h⟩)
+  | ifError a b h => exact .inr (.inr ⟨a, b, .inr (.inr rfl), rfl, h⟩)
+
+/-! ### one iteration of the trampoline -/
+
+/-- the recursion cell of a frame running `f` as closure `c` -/
+def selfCell (c : Val) (f : Func) : Option (String × Val) :=
+  match f.name with
+  | some n => some (n, c)
+  | none => none
+
+/-- the frame `from_template` builds for a call of the closure `.clos f dflts env` from height `h` -/
+def callFrame (h : Nat) (f : Func) (dflts : List Val) (env ps : List (String × Val)) : Frame :=
+  { env := ps.reverse ++ env, self := selfCell (.clos f dflts env) f, height := h + 1 }
+
+def depthOk (cfg : Cfg) (h : Nat) : Prop := ∀ l, cfg.depthLimit = some l → h + 1 < l
+def recOk (cfg : Cfg) (rec' : Nat) : Prop := ∀ l, cfg.recLimit = some l → rec' ≤ l
+
+theorem tramp_body_tail (fuel : Nat) (cfg : Cfg) (h : Nat) (f : Func) (dflts : List Val) (env ps : List (String × Val))
+    (args newArgs : List Val) (rec : Nat) (st st1 st2 : St) (fr' : Frame)
+    (hd : depthOk cfg h)
+    (hb : bindParams f.params args dflts = some ps)
+    (hdecl : evalDecls fuel cfg (callFrame h f dflts env ps) f.decls st = (.ok fr', st1))
+    (hbody : eval fuel cfg fr' f.body true st1 = (.tail newArgs, st2)) :
+    (recOk cfg (rec + 1) →
+      tramp (fuel + 1) cfg h (.clos f dflts env) args rec st = tramp fuel cfg h (.clos f dflts env) newArgs (rec + 1) st2) ∧
+    (∀ l, cfg.recLimit = some l → rec + 1 > l →
+      tramp (fuel + 1) cfg h (.clos f dflts env) args rec st = (.viol .recursion, st2)) := by
+  unfold callFrame selfCell at hdecl
+  unfold depthOk at hd
+  have key : tramp (fuel + 1) cfg h (.clos f dflts env) args rec st =
+      if (match cfg.recLimit with | some l => decide (rec + 1 > l) | none => false) then (.viol .recursion, st2)
+      else tramp fuel cfg h (.clos f dflts env) newArgs (rec + 1) st2 := by
+    cases hn : f.name <;> simp only [hn] at hdecl <;> cases hdl : cfg.depthLimit
+    all_goals first
+      | (simp [tramp, hdl, hn, hb, hdecl, hbody]; done)
+      | (simp [tramp, hdl, hn, hb, hdecl, hbody]; rfl)
+      | (rename_i l; have := hd l hdl; have h2 : ¬ (l ≤ h + 1) := by omega
+         simp [tramp, hdl, hn, hb, hdecl, hbody, h2]; done)
+      | (rename_i l; have := hd l hdl; have h2 : ¬ (l ≤ h + 1) := by omega
+         simp [tramp, hdl, hn, hb, hdecl, hbody, h2]; rfl)
+  rw [key]
+  constructor
+  · intro hr
+    cases hl : cfg.recLimit with
+    | none => simp
+    | some l => have := hr l hl; simp; omega
+  · intro l hl hgt
+    simp [hl, hgt]
+
 /-! ### the running example: `fn f(n, acc) { if(n == 0, acc, f(n - 1, acc + n)) }` -/
 
 def sumBody : Expr :=
